@@ -5,7 +5,8 @@
    reparse_bare = the parser's NOT precedence).  Finding classes: Model/PredClass.v. *)
 From Coq Require Import ZArith List Bool Permutation.
 From TV Require Import Model.SqlSpec Model.PredImpl Model.PredClass
-  Proof.SqlSpecLaws Proof.PredLike Proof.PredWhere Proof.PredFold Proof.PredSelect Proof.PredRefute.
+  Proof.SqlSpecLaws Proof.PredLike Proof.PredWhere Proof.PredFold Proof.PredSelect Proof.PredRefute
+  Proof.PredFragment.
 Import ListNotations.
 Open Scope Z_scope.
 
@@ -40,6 +41,15 @@ Proof. exact like_impl_correct. Qed.
 Theorem filter_correct :
   forall e r t, cls_p e r = 0 -> sem3 e r = Some t -> eval_expr e r = Ok (tv_is_true t).
 Proof. exact where_row_correct. Qed.
+
+(* ---- a purely syntactic fragment (Proof/PredFragment.frag: AND / OR over comparisons with <, >, <>
+        or a non-NULL literal side, IS [NOT] NULL, IN over text literals, BETWEEN, LIKE without
+        '%') on which the filter is right for every row of BIGINT / DOUBLE / TEXT cells, NULLs
+        included *)
+Theorem filter_correct_fragment :
+  forall e r t, frag e = true -> plain_row r = true -> sem3 e r = Some t ->
+    eval_expr e r = Ok (tv_is_true t).
+Proof. exact PredFragment.filter_correct_fragment. Qed.
 
 (* ---- the whole statement SELECT * FROM t WHERE e (parser precedence, constant folding,
         row-by-row filtering) returns exactly the rows on which e is TRUE *)
@@ -80,6 +90,11 @@ Example c14_witness :
   cls_where 0 good2 T3 = 0 /\ defined_on good2 T3 = true /\ spec_rows good2 T3 = [1; 1; 0] /\
   cls_select 0 (EIsNull true (ECol 1)) T3 = 0 /\ spec_vals (EIsNull true (ECol 1)) T3 = [1; 1; 0].
 Proof. exact good_examples. Qed.
+Example c14_fragment_witness :
+  frag good1 = true /\ forallb plain_row T3 = true /\
+  map (sem3 good1) T3 = [Some TT; Some FF; Some TT] /\
+  map (sem3 (ECmp CLt (ECol 1) (ELit (VInt 2)))) T3 = [Some TT; Some FF; Some UU].
+Proof. vm_compute. repeat split. Qed.
 
 Check sem3_laws :
   (forall a r, sem3 (ENot (ENot a)) r = sem3 a r) /\
@@ -93,6 +108,8 @@ Check tlp_partition : forall p t, defined_on p t = true ->
     Permutation (filter_spec p t ++ filter_spec (ENot p) t ++ filter_spec (EIsNull false p) t) t.
 Check like_match_spec : forall s q, has_pct s && has_pct q = false -> like_impl s q = Some (like_spec q s).
 Check filter_correct : forall e r t, cls_p e r = 0 -> sem3 e r = Some t -> eval_expr e r = Ok (tv_is_true t).
+Check filter_correct_fragment : forall e r t, frag e = true -> plain_row r = true -> sem3 e r = Some t ->
+    eval_expr e r = Ok (tv_is_true t).
 Check where_correct : forall sty e t, cls_where sty e t = 0 -> defined_on e t = true ->
     model_where (parsed sty e) t = MOut (QRows (spec_rows e t)).
 Check select_value_correct : forall e r t, cls_s e r = 0 -> sem3 e r = Some t ->
@@ -111,6 +128,7 @@ Print Assumptions sem3_laws.
 Print Assumptions tlp_partition.
 Print Assumptions like_match_spec.
 Print Assumptions filter_correct.
+Print Assumptions filter_correct_fragment.
 Print Assumptions where_correct.
 Print Assumptions select_value_correct.
 Print Assumptions select_correct.
